@@ -404,6 +404,17 @@ pub fn make_providers(leap: &LeapTable) -> Providers {
             Err(e) => files.push((format!("negative_30:REJECTED:{e}"), LeapSecondsFile::default(), t)),
         }
     }
+    // long files: the same list behind (and in front of) tens of kilobytes to a megabyte of comment lines - a change log, a
+    // licence text added by a mirror; a reader with a size limit or a fixed buffer drops entries silently
+    for (name, before, after) in [("long_header_70k", 1_500usize, 0usize), ("long_header_1m", 22_000, 0), ("long_trailer_200k", 0, 4_500), ("long_both", 700, 700)] {
+        let pad = |n: usize| (0..n).map(|i| format!("#\tchange log line {i:06}: no change to the list\n")).collect::<String>();
+        let path = format!("{dir}/{name}.list");
+        std::fs::write(&path, format!("{}{}{}", pad(before), render(&leap.entries, 0), pad(after))).expect("write provider file");
+        match LeapSecondsFile::from_path(&path) {
+            Ok(f) => files.push((name.to_string(), f, leap.clone())),
+            Err(e) => files.push((format!("{name}:REJECTED:{e}"), LeapSecondsFile::default(), leap.clone())),
+        }
+    }
     Providers { files }
 }
 
